@@ -24,6 +24,7 @@ From SCC Require Import Base.Sexp Lang.AxSyn Lang.FunSyn Lang.CoreSyn Sem.AxSem 
      Proof.Compose Proof.ComposeFocus Proof.FocusFrag Proof.UqAeq.
 From SCC Require Import Model.FocusGuard.
 From SCC Require Import Sem.FsCheck Sem.FsFrag2 Proof.Compose2.
+From SCC Require Import Model.Fun2CoreGuard Proof.ComposeF2C.
 Import ListNotations.
 Open Scope Z_scope.
 
@@ -62,6 +63,28 @@ Theorem C01_compile_correct_partial :
      bytes_of_string (render_prints (fst o)) = flat_map runtime_bytes (fst o)).
 Proof. exact compile_correct_partial. Qed.
 Print Assumptions C01_compile_correct_partial.
+
+(* COROLLARY with the Fun -> Core link DISCHARGED for the language without codata (C02_fun2core_correct_fragment2):
+   for programs inside [prog_guard] (every definition in the fragment [frag] - all term forms except
+   new/destructors/by-name bindings and calls of main -, well-scoped [ws], capture guard [nocap] - implied
+   by the Barendregt condition, C02_barendregt_implies_capture_guard) only the focusing, shrinking and code
+   generation links remain hypotheses.  NOTE: H_fun2core as stated above (guard: barendregt only) is
+   REFUTED by the known finding call-to-main (C02_fun2core_guarded_statement_refuted), so
+   C01_compile_correct_partial holds vacuously in that hypothesis; this corollary does not need it. *)
+Theorem C01_compile_correct_fun2core_discharged_partial :
+  H_focus -> H_shrink -> H_x86 ->
+  forall (p : fcprog) (c : cprog) (f : fsprog) (a : prog) (cs : list xcode) (nargs : nat) (lc lc' : N)
+         (args : list Z) (n : nat) (o : obs),
+    NoDup (map fdname (fcpdefs p)) -> prog_guard p = true ->
+    compile_prog p = Fun2Core.Ok c -> pre_check c = true -> focus_wf c = true ->
+    focus_prog c = Backend.Ok f -> shrink_prog f = SOk a -> prog_ok a = true ->
+    x86_compile (linearize a) lc = Backend.Ok (cs, nargs, lc') ->
+    run_fun n p args = o -> out_ok o ->
+    (exists outer inner, fst (run_x86 outer inner cs args) = o) /\
+    (Forall (fun pz => in_i64 (snd pz)) (fst o) ->
+     bytes_of_string (render_prints (fst o)) = flat_map runtime_bytes (fst o)).
+Proof. exact compile_correct_fun2core_discharged. Qed.
+Print Assumptions C01_compile_correct_fun2core_discharged_partial.
 
 (* the bytes the runtime writes for a print trace are the decimal rendering used by the reference
    semantics, for every trace of 64-bit values (from the C20 digit-loop theorems) *)
